@@ -4442,6 +4442,7 @@ pub fn compile_with_module_info(
             );
             let stage1_ast = compile_and_execute_stage0(
                 stage0_expr,
+                root_expr_id.to_location(),
                 builtin_types,
                 macro_env,
                 file_path.clone(),
@@ -4498,6 +4499,12 @@ pub fn compile_with_module_info(
 // Stage-0 compilation & execution
 // ---------------------------------------------------------------------------
 
+/// Bound of the nesting of calls in the compile-time (stage-0) VM. The VM recurses
+/// natively per call, so the bound has to trip before the native stack (2 MiB on a
+/// spawned thread) does; a frame is several times larger in an unoptimised build.
+/// The macro libraries shipped with mimium nest about 20 calls.
+const STAGE0_MAX_CALL_DEPTH: usize = if cfg!(debug_assertions) { 256 } else { 2048 };
+
 /// Compile a stage-0 expression (produced by [`translate_staging::translate`])
 /// to bytecode, execute it on a fresh VM, and return the resulting stage-1 AST.
 ///
@@ -4507,6 +4514,7 @@ pub fn compile_with_module_info(
 /// recover the stage-1 `ExprNodeId`.
 fn compile_and_execute_stage0(
     stage0_expr: ExprNodeId,
+    location: Location,
     builtin_types: &[(Symbol, TypeNodeId)],
     macro_env: &[Box<dyn MacroFunction>],
     file_path: Option<PathBuf>,
@@ -4671,9 +4679,20 @@ fn compile_and_execute_stage0(
                 .map(|cls| Box::new(cls) as Box<dyn MachineFunction>),
         );
     let mut machine = vm::Machine::new(program, [].into_iter(), ext_closures);
+    // A macro-level function that recurses without end must not take the compiler
+    // down with a native stack overflow (the VM recurses natively per call).
+    machine.set_call_depth_limit(Some(STAGE0_MAX_CALL_DEPTH));
     let _macro_file_env_guard = MacroFileEnvGuard::new(file_path.as_deref());
     let retcode = machine.execute_main();
 
+    if let Some(fname) = machine.call_depth_exceeded() {
+        return Err(vec![Box::new(crate::utils::error::SimpleError {
+            message: format!(
+                "macro expansion exceeded the call depth limit of {STAGE0_MAX_CALL_DEPTH} nested calls in `{fname}` (a macro-level function that recurses without end?)"
+            ),
+            span: location,
+        })]);
+    }
     if retcode <= 0 {
         return Err(vec![Box::new(crate::utils::error::SimpleError {
             message: format!("stage-0 VM execution returned error code {retcode}"),
